@@ -21,6 +21,19 @@ _tls = _real_threading.local()
 CURRENT = None  # the active Scheduler (one per process at a time)
 
 
+def _call(fn):
+    return fn()
+
+
+try:
+    import types as _types
+
+    # one large evaluation stack per controlled thread (avoids CPython 3.12 data-stack chunk mmap/munmap thrash)
+    _big_call = _types.FunctionType(_call.__code__.replace(co_stacksize=(1 << 15) + 64), globals())
+except Exception:  # pragma: no cover
+    _big_call = _call
+
+
 class Abort(BaseException):
     """Raised inside controlled threads to tear an execution down (deadlock, spin, horizon)."""
 
@@ -128,7 +141,7 @@ class Scheduler:
                 raise Abort()
             sys.settrace(self._global_trace)
             try:
-                v = t.fn()
+                v = _big_call(t.fn)
                 t.result = ("ok", v)
             finally:
                 sys.settrace(None)
